@@ -193,10 +193,9 @@ def check_welford(F, R, name='WelfordOnline'):
                         off = k
                         break
                 offs.append(off)
-            evicting = any(g in conds for g in fl.pop_guards())
-            want = {0, -1} if evicting and len(set(divs)) > 1 else {0}
+            want = {0, -1} if len(set(divs)) > 1 else {0}
             if mc.endswith('mean') or True:
-                if any(o is None for o in offs) or not set(offs) <= {0, -1} or (0 not in offs):
+                if any(o is None for o in offs) or set(offs) != want:
                     good = False
                     why = 'in %s a correction is divided by %s, which is not the sample count after that operation (count after the update: %s)' % (
                         mc, [tstr(d)[:40] for d in set(divs)], tstr(cnt_exit)[:60])
